@@ -38,7 +38,7 @@ out = ['# Sensitivity', '',
        'snapshot-install-then-truncate-then-kill history). Missed at first and what was changed: C08-r3 (runs of small appends, so that a head drop keeps several records and fewer bytes than it drops), C10-r3 (repeated membership',
        'requests whose effect is in place: `redundant`, `specsnap2`), C12-r3 (end phase: every node compacts, one more command), C13-r3 (bulk mode: megabytes of incompressible backlog against buffers that fill at powers of two),',
        'C15-r3 (list elements equal by value but not by type; contents compared by type and value), C16-r3 (the reference fold of lock commands choked on an extra field of release(): HARNESS-ERROR instead of a verdict; it now takes',
-       'the documented fields and the real-table-vs-reference differential fires), C20-r3 (every 4th C20 case has dynamic membership). C07-r3 (state monitor `term-forgotten-by-restart` in C07). After these changes 20 of 20 are caught by a quick tier; C06-r3 only through C08.', '',
+       'the documented fields and the real-table-vs-reference differential fires), C20-r3 (every 4th C20 case has dynamic membership). C07-r3 (state monitor `term-forgotten-by-restart` in C07). After these changes 20 of 20 are caught by a quick tier (re-run on /repo f910cba: `seeded/round3_reconfirm_f910cba.log`); C06-r3 only through C08.', '',
        '## Hand-written mutants', '', 'See `sensitivity_mutants.md` (generated by `tools/sensitivity.py`).', '']
 open(os.path.join(HERE, 'sensitivity.md'), 'w').write('\n'.join(out))
 print('rows', len(rows))
